@@ -97,7 +97,7 @@ def install(w):
             requires=[
                 # wf_args (established by the transforms that attach these arguments, DESIGN Appendix B): the session-changing
                 # arguments exclude each other and the bookkeeping arguments; they carry strings
-                f"{A_('set_database')} is None or (isinstance({A_('set_database')}, str) and not {A_('set_schema')} and not {A_('create_db_name')} and not {A_('table_comment')} and not {A_('text_lengths')})",
+                f"{A_('set_database')} is None or (isinstance({A_('set_database')}, str) and ({A_('set_schema')} is None or isinstance({A_('set_schema')}, str)) and not {A_('create_db_name')} and not {A_('table_comment')} and not {A_('text_lengths')})",
                 f"{A_('set_schema')} is None or (isinstance({A_('set_schema')}, str) and not {A_('create_db_name')} and not {A_('table_comment')} and not {A_('text_lengths')})",
                 f"{A_('create_db_name')} is None or (isinstance({A_('create_db_name')}, str) and attaches({SQL}, {A_('create_db_name')}) and not {A_('table_comment')} and not {A_('text_lengths')})",
                 f"{A_('seed')} is None or (cls_is(transformed, exp.Select) and not {SPECIAL} and not {A_('table_comment')} and not {A_('text_lengths')})",
@@ -112,7 +112,7 @@ def install(w):
             result=NoneType,
             modifies=cur_fields + ctx_fields + duck_ghosts,
             raises={
-                AssertionError: {"when": None, "ensures": {"C05.replace.reset_on_assert": RESET}, "modifies": cur_fields + ctx_fields + duck_ghosts, "frame": True},
+                AssertionError: {"when": None, "ensures": {"C05.replace.reset_on_assert": RESET, "C07.frame.on_assert": f"implies(not {CMD}.startswith('DROP'), {CTX_SAME})"}, "modifies": cur_fields + ctx_fields + duck_ghosts, "frame": True},
                 sferr.ProgrammingError: {
                     "when": None,
                     "ensures": {
@@ -142,6 +142,7 @@ def install(w):
                         # untranslated engine errors: never the four translated classes from the user statement itself
                         "C07.map.untranslated": "implies(trace_len() == old(trace_len()), not isinstance(exc, (duckdb.BinderException, duckdb.CatalogException, duckdb.ConnectionException)))",
                         "C05.replace.reset_on_raw": RESET,
+                        "C07.frame.on_raw": f"implies(not {CMD}.startswith('DROP'), {CTX_SAME})",
                         # C13: COMMIT / ROLLBACK outside a transaction are no-ops with the success status, never an error
                         "C13.noop": "not (isinstance(exc, duckdb.TransactionException) and ('cannot rollback - no transaction is active' in exc_message(exc) or 'cannot commit - no transaction is active' in exc_message(exc)) and trace_len() == old(trace_len()))",
                     },
@@ -161,10 +162,15 @@ def install(w):
                 f"trace_at(trace_len() - 1) == ddl_status_sql('DROP', norm_ident(old(find_ident_dfs(transformed)))))",
                 "C04.status.database": f"implies(not {A_('set_database')} and not {A_('set_schema')} and bool({A_('create_db_name')}), trace_at(trace_len() - 1) == ddl_status_sql('CREATE DATABASE', {A_('create_db_name')}))",
                 # C06: the statement description will describe is the one whose result the cursor holds
-                "C06.describable.is_last": "self._last_sql == trace_at(trace_len() - 1) or trace_len() == old(trace_len())",
+                "C06.describable.is_last": f"implies(not {A_('seed')}, self._last_sql == trace_at(trace_len() - 1))",
+                # seeded RANDOM / SAMPLE: the statement without its setseed() prefix
+                "C06.describable.seeded": f"implies(bool({A_('seed')}), self._last_sql == {SQL} or self._last_sql == SQL_SUCCESS)",
                 # the statement itself is what is executed first (with the seed prefix for seeded RANDOM / SAMPLE)
                 "C16.main_sql": f"implies(not {CMD} in ('COMMIT', 'ROLLBACK') and not {A_('seed')}, trace_at(old(trace_len())) == {SQL})",
                 "C02.tx.monotone": "tx_len() >= old(tx_len())",
+                "C05.replace.wf": "wf_table(self._arrow_table)",
+                # every statement of this call ran on this cursor's own DuckDB connection (C03 / C13)
+                "C13.trace.own_connection": "forall(old(trace_len()), trace_len(), lambda j: trace_conn_at(j) is self._duck_conn)",
                 "C16.executed": "trace_len() >= old(trace_len()) + 1",
                 "C16.single_statement": f"implies({CMD} == 'SELECT' and not {SPECIAL} and not {A_('table_comment')} and not {A_('text_lengths')}, trace_len() <= old(trace_len()) + 1)",
                 "C10.macro.bootstrap": f"implies(not {A_('set_database')} and not {A_('set_schema')} and bool({A_('create_db_name')}), bootstrapped(upper({A_('create_db_name')})))",
@@ -172,7 +178,10 @@ def install(w):
                 "C04.rowcount.query": "implies(not is_dml_count(transformed), self._rowcount == nrows(self._arrow_table))",
                 "C06.describable.last": "self._last_params is params and isinstance(self._last_sql, str)",
                 "C03.use.database": f"implies(bool({A_('set_database')}), self._conn.database == {A_('set_database')} and self._conn.database_set)",
-                "C03.use.schema": f"implies(not {A_('set_database')} and bool({A_('set_schema')}), self._conn.schema == {A_('set_schema')} and self._conn.schema_set and self._conn.database == old(self._conn.database))",
+                # USE SCHEMA [db.]s: the schema becomes current; the database changes exactly when the name is qualified
+                "C03.use.schema": f"implies(bool({A_('set_schema')}), self._conn.schema == {A_('set_schema')} and self._conn.schema_set and implies(not {A_('set_database')}, self._conn.database == old(self._conn.database)))",
+                # after USE DATABASE d DuckDB is at d.main: conn.schema must not keep naming a schema of the previous database
+                "C03.use.database_schema_consistent": f"implies(bool({A_('set_database')}) and not {A_('set_schema')}, self._conn.schema is None or self._conn.schema == 'MAIN')",
                 "C03.ctx.else_unchanged": f"implies(not {A_('set_database')} and not {A_('set_schema')} and not {CMD}.startswith('DROP'), {CTX_SAME})",
             },
             props=["C03", "C04", "C05", "C06", "C07", "C13"],
@@ -388,3 +397,56 @@ def install_execute2(w):
             props=["C08"],
         )
     )
+
+
+def install_describe(w):
+    import duckdb
+    import snowflake.connector.errors as sferr
+    import sqlglot.errors
+    from sqlglot import exp
+
+    import fakesnow.conn
+    import fakesnow.cursor
+
+    Cur = fakesnow.cursor.FakeSnowflakeCursor
+    Conn = fakesnow.conn.FakeSnowflakeConnection
+    M = "fakesnow.cursor.FakeSnowflakeCursor."
+    X = w.contracts[M + "_execute"]
+    ghosts = [m for m in X.modifies if m.startswith("$ghost:")]
+    # C06: reading the description never changes the pending result set, the data or the session:
+    # nothing reachable from the cursor or its connection is modified (only DuckDB's statement trace / last-result ghosts)
+    w.add_contract(
+        Contract(
+            M + "_describe_last_sql",
+            params={"self": Cur},
+            requires=["self._duck_conn is self._conn._duck_conn", "self._last_sql is None or isinstance(self._last_sql, str)"],
+            result=ListT(None),
+            modifies=ghosts,
+            raises={BaseException: {"when": None, "ensures": {}, "modifies": ghosts}},
+            ensures={
+                "C06.frame.describes_last": "trace_len() >= old(trace_len()) + 1",
+                "C06.frame.same_connection": "forall(old(trace_len()), trace_len(), lambda j: trace_conn_at(j) is self._duck_conn)",
+            },
+            props=["C06", "C17"],
+        )
+    )
+    MN = "fakesnow.conn.FakeSnowflakeConnection."
+    X2 = w.contracts[M + "execute"]
+    g2 = [m for m in X2.modifies if m.startswith("$ghost:")] + ["$ghost:$ex_n", "$ghost:$ex_cmd", "$ghost:$ex_par"]
+    ctx = ["self.database", "self.schema", "self.database_set", "self.schema_set", "self.variables._variables.$dmap", "self.variables._variables.$dhas", "self.variables._variables.$klen", "self.variables._variables.$kel"]
+    for name, sql in (("commit", "COMMIT"), ("rollback", "ROLLBACK")):
+        w.add_contract(
+            Contract(
+                MN + name,
+                params={"self": Conn},
+                requires=[],
+                result=NoneType,
+                modifies=g2 + ctx,
+                raises={BaseException: {"when": None, "ensures": {}, "modifies": g2 + ctx}},
+                ensures={
+                    # C13: conn.commit() / conn.rollback() execute exactly COMMIT / ROLLBACK through a cursor of this connection
+                    f"C13.conn_api.{name}": f"execs() == old(execs()) + 1 and exec_cmd(old(execs())) == '{sql}' and exec_params(old(execs())) is None",
+                },
+                props=["C13"],
+            )
+        )
